@@ -20,7 +20,7 @@ PLAN = dict(
                     "(linearized); back ends: a panic is accepted only if its message is one of the documented capacity limits AND "
                     "the program is outside within_capacity_<backend> (so theorem codegen_total is confronted with the real code "
                     "generators). First failure wins: VIOL class=ill-typed-stage:<stage> | internal-failure:<stage> | "
-                    "capture-under-binder (FIXED in /repo by <commitcap>; a recurrence is a plain violation: only when the syntactic detector fires, the first ill-typed stage is core "
+                    "capture-under-binder (FIXED in /repo by d5d4151; a recurrence is a plain violation: only when the syntactic detector fires, the first ill-typed stage is core "
                     "and the failure is an occurrence resolved to a binder of another chirality/type) | call-to-main-typing "
                     "(known finding, with its closed-form detector) | main-non-integer-result (FIXED in /repo by 5b8c76f: the checker rejects "
                     "a main whose return type is not i64; a recurrence is a plain violation). Theorems (no axioms): "
@@ -33,7 +33,7 @@ PLAN = dict(
                     "(wt_fs ignores parameter types, wt_ax demands declared ones: C12_shrink_preserves_typing_refuted); C12_pipeline_wt_fragment2 "
                     "is the composition with the shrink link discharged on the fragment; the other two links are proved as well: "
                     "C12_fun2core_preserves_typing_fragment2 (prog_tyguard p -> compile_prog p = Ok c -> wt_core c; prog_tyguard = boolean typing "
-                    "of the annotated program in compiled types + no call of main + main : i64 (no capture clause since the repair <commitcap> of fun2core: shadowing is allowed); all term forms; key lemma: "
+                    "of the annotated program in compiled types + no call of main + main : i64 (no capture clause since the repair d5d4151 of fun2core: shadowing is allowed); all term forms; key lemma: "
                     "a lifted share_<f>_<n> is typed in its parameter list = core_lang's TypedFreeVars of its body), C12_fun2core_total_fragment2, "
                     "C12_fun2core_pre_check (every fun2core output satisfies pre_check, no guard), C12_uniquify_preserves_typing, "
                     "C12_focus_preserves_typing (wt_core + pre_check + xtor_tys_ok + names_le -> wt_fs + unique_binders + ids_bounded + gub), "
